@@ -247,7 +247,7 @@ PROPS = {
     },
     "C16": {
         "modules": ["RsddModel.Props.C16", "RsddModel.Props.Tie", "RsddModel.Props.TieIte"],
-        "streams": [BDD_STREAM, LRU_STREAM],
+        "streams": [BDD_STREAM, LRU_STREAM, SDD_STREAM],
         "rule": BDD_RULE,
         "trusted": ["modelled not verified: FxHasher (any function of the key)"],
         "assumptions": ["the hash passed with a key is a function of the key (true of LruIteTable)"],
